@@ -58,7 +58,7 @@ def snapshot(built):
             (
                 id(n),
                 type(n).__name__,
-                n.scope,
+                getattr(n, "scope", "<foreign node without scope>"),
                 id(getattr(n, "fn", None)),
                 id(getattr(n, "value", None)) if hasattr(n, "value") else None,
                 id(getattr(n, "stack_frame", None)),
@@ -145,6 +145,34 @@ def capture_physical(plan, out_node, built):
 
 
 # --------------------------------------------------------------------------
+def _extra_call():
+    sim = RT[0].sim
+    sim.log("call-start", "extra", 1)
+    sim.yield_("extra")
+    sim.log("call-end", "extra", 1, "ok", "")
+
+
+def _wrap_output(value):
+    sim = RT[0].sim
+    sim.log("call-start", "wrap", 1)
+    sim.log("call-end", "wrap", 1, "ok", "")
+    return value
+
+
+def apply_transform(kind, plan, out_node):
+    """A user transform_physical hook that really changes the physical plan."""
+    from uberjob.graph import Call
+
+    if kind in ("extra-call", "both"):
+        roots = [n for n in plan.graph.nodes() if type(n) is Call and not list(plan.graph.predecessors(n))]
+        x = plan.call(_extra_call)
+        for n in roots:
+            plan.add_dependency(x, n)
+    if kind in ("wrap-output", "both") and out_node is not None:
+        out_node = plan.call(_wrap_output, out_node)
+    return plan, out_node
+
+
 def make_retry(spec, sim):
     """retry spec: None | int | ['custom', n] (a user decorator with virtual
     back-off between attempts)."""
@@ -312,6 +340,8 @@ def _run_op(hist, op, idx, *, tape=None, uberjob_kwargs=None, client_wrap=None, 
         kwargs["progress"] = prog  # a Progress object supplied by the check
 
     def transform_physical(plan, out_node):
+        if cfg.get("transform"):
+            plan, out_node = apply_transform(cfg["transform"], plan, out_node)
         rec.physical = capture_physical(plan, out_node, built)
         rec.extra["physical_plan"] = (plan, out_node)
         return plan, out_node
